@@ -21,8 +21,8 @@ from ..choice import explore, replay
 
 PHASE_MENU = [0.0, math.pi / 2, math.pi, 3 * math.pi / 2, 1.234]
 WALK_MENU = [0.0, 0.25, 0.5, 0.75, 0.999]
-FULL_PERM_MAX = 5       # shuffle menus hold every permutation up to this length
-FULL_PHASE_MAX = 3      # one choice point per row (every phase vector) up to here
+FULL_PERM_MAX = 5    # shuffle menus hold every permutation up to this length
+FULL_PHASE_MAX = 3   # one choice point per row (every phase vector) up to it
 
 
 class SeamError(BaseException):
@@ -59,9 +59,31 @@ def perm_menu(n):
     return _PERMS[n]
 
 
+_NORMALS = {}
+_RS = {}
+
+
+def seeded_state(seed):
+    """A numpy RandomState positioned at the start of stream `seed` (one
+    shared object per seed, rewound on every request: seeding a Mersenne
+    twister from scratch costs more than a whole surrogate call)."""
+    if seed not in _RS:
+        rs = np.random.RandomState(seed)
+        _RS[seed] = (rs, rs.get_state())
+    rs, st = _RS[seed]
+    rs.set_state(st)
+    return rs
+
+
 def reference_normal_draws(shape):
     """Three fixed stand-ins for a `randn(*shape)` answer: generic distinct
     values, values with many ties, and the all-zero array."""
+    if shape not in _NORMALS:
+        _NORMALS[shape] = _reference_normal_draws(shape)
+    return _NORMALS[shape]
+
+
+def _reference_normal_draws(shape):
     size = int(np.prod(shape)) if len(shape) else 1
     k = np.arange(size, dtype=float)
     generic = 1.7 * np.sin(1.0 + 2.399963 * k) + 0.3 * np.cos(0.7 * k * k)
@@ -76,7 +98,7 @@ class NumpyRandom:
 
     def __init__(self, cr, seed, log=None):
         self.cr = cr
-        self._d = np.random.RandomState(seed)
+        self._d = seeded_state(seed)
         self.log = log if log is not None else []
 
     def shuffle(self, x):
@@ -167,6 +189,7 @@ class Scripted:
     def __init__(self, log):
         self.script = list(log)
         self.pos = 0
+        self.log = []
 
     def _next(self, kind):
         if self.pos >= len(self.script) or self.script[self.pos][0] != kind:
@@ -328,8 +351,8 @@ def walk_defect(sur, states, twins):
         if not cur:
             return ("transition",
                     "step %d: %r follows %r but is neither its successor nor "
-                    "the successor of one of its twins" % (j, sur[j],
-                                                            sur[j - 1]))
+                    "the successor of one of its twins"
+                    % (j, sur[j], sur[j - 1]))
     return None
 
 
